@@ -317,8 +317,7 @@ impl Envelope {
 
                 let signature_metadata_envelope = signature_object_subject.unwrap_envelope().unwrap();
                 if let Ok(signature) = signature_metadata_envelope.extract_subject::<Signature>() {
-                    let signing_target = self.subject();
-                    if !signing_target.is_signature_from_key(&signature, key) {
+                    if !self.is_signature_from_key(&signature, key) {
                         return Some(Err(anyhow::anyhow!("Inner signature not made with same key as outer signature.")));
                     }
                     Some(Ok(Some(signature_metadata_envelope)))
